@@ -1265,6 +1265,13 @@ class _iterinfo(object):
             for offset in rr._byeaster:
                 if 0 <= eyday+offset < len(self.eastermask):
                     self.eastermask[eyday+offset] = 1
+            if year < datetime.MAXYEAR:
+                # A weekly period crossing the year boundary reaches into
+                # the next year, whose days relate to that year's Easter.
+                eyday = easter.easter(year+1).toordinal()-self.yearordinal
+                for offset in rr._byeaster:
+                    if self.yearlen <= eyday+offset < len(self.eastermask):
+                        self.eastermask[eyday+offset] = 1
 
         self.lastyear = year
         self.lastmonth = month
